@@ -87,6 +87,17 @@ class TimerScheduler:
             )
             self._schedule_counter += 1
 
+    def run_suspend_decision(self, decide: Callable[[], bool]) -> None:
+        """Run the executor's suspend decision under the scheduler lock.
+
+        Popping a due branch and resetting it to PENDING happens under the same lock, so either
+        the decision sees the resubmitted branch (and does not suspend) or, when decide() returns
+        True, the timer thread sees the stop request (and does not resubmit).
+        """
+        with self._lock:
+            if decide():
+                self._shutdown.set()
+
     def shutdown(self) -> None:
         """Shutdown the timer thread and cancel all pending resumes."""
         self._shutdown.set()
@@ -113,6 +124,10 @@ class TimerScheduler:
                 # Time to resume
                 to_resubmit: ExecutableWithState | None = None
                 with self._lock:
+                    # The executor may have decided to suspend (see run_suspend_decision) since
+                    # the loop condition was checked: a branch must not be resubmitted after that.
+                    if self._shutdown.is_set():
+                        break
                     # no branch cover because hard to test reliably - this is a double-safety check if heap mutated
                     # since the first peek on next_resume_time further up
                     if (  # pragma: no branch
@@ -121,6 +136,7 @@ class TimerScheduler:
                     ):
                         _, _, exe_state = heapq.heappop(self._pending_resumes)
                         if exe_state.can_resume:
+                            # PENDING is visible to a concurrent suspend decision before the lock is released
                             exe_state.reset_to_pending()
                             to_resubmit = exe_state
                 if to_resubmit is not None:
@@ -353,10 +369,19 @@ class ConcurrentExecutor(ABC, Generic[CallableType, ResultType]):
         if self.counters.should_complete():
             self._completion_event.set()
         else:
-            suspend_result = self.should_execution_suspend()
-            if suspend_result.should_suspend:
-                self._suspend_exception = suspend_result.exception
-                self._completion_event.set()
+            # Decide under the scheduler's lock so that the decision cannot race with the timer
+            # thread resubmitting a timed-suspended branch (which would leave it running while
+            # the invocation reports PENDING).
+            scheduler.run_suspend_decision(self._decide_suspend)
+
+    def _decide_suspend(self) -> bool:
+        """Suspend if nothing can make progress. Returns True if the executor is suspending."""
+        suspend_result = self.should_execution_suspend()
+        if suspend_result.should_suspend:
+            self._suspend_exception = suspend_result.exception
+            self._completion_event.set()
+            return True
+        return False
 
     def _fail_fast(self, error: BaseException) -> None:
         """Record a fatal error (first one wins) and wake the thread blocked in execute()."""
